@@ -50,3 +50,11 @@ pub fn list_upper_limit_for_number_of_codewords(l: &SymbolList, n: usize) -> Opt
 pub fn list_elements(l: &SymbolList) -> Vec<SymbolSize> {
     l.iter().collect()
 }
+
+pub fn read_eci(data: &[u8]) -> Result<(usize, u32), crate::data::DataDecodingError> {
+    crate::decodation::verif_read_eci(data)
+}
+
+pub fn write_eci(c: u32) -> Vec<u8> {
+    crate::encodation::verif_write_eci(c)
+}
